@@ -43,6 +43,7 @@ type ChainCfg struct {
 	RuleStyle        int  // 0 strict (MATCH + DISALLOW *), 1 lenient (ALLOW *), 2 random
 	OddStepNames     bool // C15: step names with pattern metacharacters etc. (crash search)
 	CertSteps        bool
+	UncleanNamesPct  int    // chance (percent) that every link of the chain records its artifacts under names that are not clean paths ("./src/main.c", as `in-toto run -m ./src/main.c` records them)
 	SameNamePct      int    // chance (percent) that the delegating step of a nested level carries the NAME and the FUNCTIONARY of the step that delegated to this level
 	SubFlattenPct    int    // chance (percent) that a sublayout's links are put into the parent's directory (no sublayout directory)
 	CertOnlyPct      int    // chance (percent) that a certificate step has no public keys, one constraint, threshold 2-3 and that many holders
@@ -1060,6 +1061,13 @@ func genChainCase(r *Runner, rng *Rng, cfg *ChainCfg) Case {
 	w := newWorld()
 	g := &chainGen{rng: rng, s: &Signer{drv: r.Drv, w: w}, w: w, cfg: cfg}
 	g.oneSub = cfg.SubInspPct > 0 && cfg.Entry != "withdir" && cfg.Depth > 0 && rng.Chance(cfg.SubInspPct)
+	artsNamePrefix = ""
+	if cfg.UncleanNamesPct > 0 && rng.Chance(cfg.UncleanNamesPct) {
+		// the links name their artifacts "./<path>": rules see the clean names, the summary carries the
+		// names as they were recorded and agreed upon (findings F21, F22)
+		artsNamePrefix = "./"
+	}
+	defer func() { artsNamePrefix = "" }()
 	tag := fmt.Sprintf("%s-%d", r.Prop, r.Shard)
 	cfg.Marker = "/tmp/verif-mk-" + tag
 	cfg.RunDir = "/tmp/verif-rd-" + tag
